@@ -13,6 +13,8 @@ VERUS = {
     'ratio_to_float': {'file': 'ratio_to_float.rs', 'w32': False},
     # float/src/convert.rs macro impl_from_float_for_fbig: TryFrom<f32/f64> for Repr<2> and for FBig<R, 2> (rule E3b)
     'float_from_prim': {'file': 'float_from_prim.rs', 'w32': False},
+    # rational/src/convert.rs macro impl_conversion_to_float: TryFrom<RBig> for f32 / f64 (never panics; Ok only if exact)
+    'ratio_try_float': {'file': 'ratio_try_float.rs', 'w32': False},
 }
 
 _LOW3 = '3 words: low and middle word fully symbolic (2^128, shared by the sweep) x concrete top word '
@@ -56,6 +58,9 @@ KANI = {
     # away in the to_f32/to_f64 harnesses.  The harness file also contains two harnesses of kind 'finding' that FAIL on
     # the unchanged tree (they witness genuine defects); they are listed in _RATIO_FINDINGS and must be moved into
     # 'harnesses' together with `known:` entries in known_findings.txt (or dropped once /repo is fixed).
+    # The harnesses vk_ratio_to_float_k_try_f32 / _try_f64 (+ _wide_num) for `TryFrom<RBig> for f32/f64` are NOT registered
+    # any more: since the fix of the unwrap panic the code shifts the numerator by its (symbolic) number of trailing
+    # zeros, which CBMC cannot handle (timeout / out of memory); the Verus unit ratio_try_float covers that function.
     'ratio_to_float_k': {
         'package': 'dashu-ratio', 'target': 'rational/src/convert.rs', 'file': 'ratio_to_float_k.rs',
         'note': _RATIO_NOTE,
@@ -69,10 +74,6 @@ KANI = {
             'vk_ratio_to_float_k_f64_big_num': dict(_TH, kind='bounded', bound=_D15 + ', num = 2^63 + a*2^60 + lo, a < 8, lo < 4096'),
             'vk_ratio_to_float_k_to_ubig': {'kind': 'bounded', 'bound': '|num| < 2^15, den = any of 1..=15 (non-integer value if den > 1)'},
             'vk_ratio_to_float_k_to_ibig': {'kind': 'bounded', 'bound': '|num| < 2^15, den = any of 1..=15 (non-integer value if den > 1)'},
-            'vk_ratio_to_float_k_try_f32': {'kind': 'bounded', 'bound': 'num = any i32, den = 2^k, k in {0, 1, 126, 149, 150, 181}'},
-            'vk_ratio_to_float_k_try_f64': {'kind': 'bounded', 'bound': 'num = any i64, den = 2^k, k in {0, 1, 64}'},
-            'vk_ratio_to_float_k_try_f32_wide_num': {'kind': 'bounded', 'bound': 'num = any i64 outside i32, den = 1'},
-            'vk_ratio_to_float_k_try_f64_wide_num': {'kind': 'bounded', 'bound': '2^63 <= |num| < 2^64, den = 1'},
         },
     },
 }
@@ -86,7 +87,7 @@ _RATIO_FINDINGS = {
 }
 
 PROP_UNITS = {
-    'C06': {'verus': ['int_to_float', 'float_to_f', 'float_conv', 'ratio_to_float', 'float_from_prim'],
+    'C06': {'verus': ['int_to_float', 'float_to_f', 'float_conv', 'ratio_to_float', 'float_from_prim', 'ratio_try_float'],
             'kani': ['int_to_float_k', 'ratio_to_float_k']},
     'C08': {'verus': ['float_conv', 'float_from_prim']},
     'C10': {'verus': ['float_conv']},
